@@ -76,8 +76,8 @@ NC_AllChainsKept == (Family = "refine" /\ AllComplete /\ Cardinality(hits) <= 2)
 
 (* --- hmmer.remove_overlapping ------------------------------------------------------------------ *)
 NoOvSat == (Family = "nooverlap" /\ hits # {}) => \A limit \in NoOvLimits :
-    /\ NoOverlapClauses(NoOvProf, limit, hits, ByStart(NoOvProf, RefNoOverlap(NoOvProf, limit, hits, FALSE))) = {}
-    /\ NoOverlapClauses(NoOvProf, limit, hits, ByStart(NoOvProf, RefNoOverlap(NoOvProf, limit, hits, TRUE))) = {}
+    /\ NoOverlapClauses(NoOvProf, limit, ByCode(hits), ByStart(NoOvProf, RefNoOverlap(NoOvProf, limit, hits, FALSE))) = {}
+    /\ NoOverlapClauses(NoOvProf, limit, ByCode(hits), ByStart(NoOvProf, RefNoOverlap(NoOvProf, limit, hits, TRUE))) = {}
 (* the documented ranking is total, and the group sweep of the implementation is sound *)
 NoOvRankTotal == Family = "nooverlap" => \A x, y \in hits : x # y => (Better(NoOvProf, x, y) # Better(NoOvProf, y, x))
 NoOvSweepSound == (Family = "nooverlap" /\ hits # {}) => \A limit \in NoOvLimits :
